@@ -364,6 +364,7 @@ theorem load_wellFormed {sd : SchemaDoc} {s : Schema} (h : load sd = .ok s)
     enumValueNamesNotReserved := S.enumValueNamesNotReserved, singleSchemaDef := S.singleSchemaDef,
     extensionKindsMatch := S.extensionKindsMatch, enumValuesNotLiterals := S.enumValuesNotLiterals,
     directiveArgsDeclared := D.directiveArgsDeclared, noSelfReference := D.noSelfReference,
-    appliedNamesNotReserved := D.appliedNamesNotReserved, rootOperationTypesOnce := S.rootOperationTypesOnce }
+    appliedNamesNotReserved := D.appliedNamesNotReserved, rootOperationTypesOnce := S.rootOperationTypesOnce,
+    rootTypesAreObjects := S.rootTypesAreObjects }
 
 end Gql.Load
